@@ -131,6 +131,16 @@ for pid in sorted(md.CLAIMED):
         else:
             c["text"] = c["text"] + "  Round 12: " + text + "."
         c["technique"] = c["technique"] + "; " + tech
+    add12t = getattr(md, "ADDENDA_R12T", {}).get(pid)
+    if add12t:
+        ref, text, tech = add12t
+        c["design_ref"] = c["design_ref"] + ", " + ref
+        if "  Not decided:" in c["text"]:
+            head, tail = c["text"].split("  Not decided:", 1)
+            c["text"] = head + "  Round-12 triage: " + text + ".  Not decided:" + tail
+        else:
+            c["text"] = c["text"] + "  Round-12 triage: " + text + "."
+        c["technique"] = c["technique"] + "; " + tech
     checks.append({
         "property_id": pid,
         "quick_cmd": "./check %s --tier quick" % pid,
